@@ -8,6 +8,12 @@
 //!   json   : schema values written by an independent printer with random spellings / optional keys, ≈45 % mutated
 //!            (dropped keys, wrong value kinds, wrong arity, unknown names, bad units, duplicate strategy, junk)
 //!   spell  : data-type strings, both spellings of every name (exhaustive) and a list of malformed strings
+//!   strategy : (API coverage) the public `Strategy` value on its own: `FromStr`, `TryFrom<String>`, `Deserialize`,
+//!            `Display`, `Into<String>`, `Serialize`, `Into<HashMap>` / `Into<BTreeMap>` (the metadata entry under the
+//!            public constant `STRATEGY_KEY`), for the four names and near misses
+//! API coverage in `fields` cases: the OWNED conversions `TryFrom<SerdeArrowSchema>` for `Vec<arrow Field>`,
+//! `Vec<FieldRef>`, `Vec<arrow2 Field>`, the borrowed one into `Vec<arrow Field>`, `SchemaLike for Vec<arrow Field>`
+//! (`from_value`), and `Clone` / `PartialEq` / `Default` of `SerdeArrowSchema`.
 use crate::outcome;
 use crate::rng::Rng;
 use crate::schema_dump::{field_from_json, field_to_json};
@@ -616,6 +622,22 @@ pub fn gen(ctx: &Ctx) -> Vec<Value> {
             id(&mut out, json!({"seed": sub, "kind": "json", "value": value, "mutation": mutation}));
         }
     }
+    // API coverage: the Strategy value on its own (fixed table)
+    for t in STRATEGIES {
+        let lower = t.to_lowercase();
+        let upper = t.to_uppercase();
+        let spaced = format!(" {t}");
+        let trailing = format!("{t} ");
+        let quoted = format!("\"{t}\"");
+        let cut = &t[..t.len() - 1];
+        let doubled = format!("{t}{t}");
+        for v in [t, lower.as_str(), upper.as_str(), spaced.as_str(), trailing.as_str(), quoted.as_str(), cut, doubled.as_str()] {
+            id(&mut out, json!({"seed": 0, "kind": "strategy", "s": v}));
+        }
+    }
+    for v in ["", "Strategy", "SERDE_ARROW:strategy", "Foo", "TupleAsStruct\0", "MapAsStruct\n", "Inconsistent Types", "UnknownVariant(0)", "unknown_variant", "ＭapAsStruct"] {
+        id(&mut out, json!({"seed": 0, "kind": "strategy", "s": v}));
+    }
     out
 }
 
@@ -720,6 +742,47 @@ fn exec_fields(input: &Value, case: &mut Map<String, Value>) {
             observe(&s).map_err(str_err)
         }),
     );
+    // API coverage: the owned conversions and the plain arrow `Field` list, value traits of the schema
+    let to_marrow = |fs: &[ArrowField]| -> Result<Value, StrErr> {
+        let mut out = Vec::new();
+        for f in fs {
+            out.push(Field::try_from(f).map_err(|e| str_err(e.to_string()))?);
+        }
+        Ok(fields_json(&out))
+    };
+    case.insert(
+        "arrow_plain".into(),
+        outcome::run(|| to_marrow(&Vec::<ArrowField>::try_from(&schema).map_err(|e| str_err(e.to_string()))?)),
+    );
+    case.insert(
+        "arrow_owned".into(),
+        outcome::run(|| to_marrow(&Vec::<ArrowField>::try_from(schema.clone()).map_err(|e| str_err(e.to_string()))?)),
+    );
+    case.insert(
+        "arrow_refs_owned".into(),
+        outcome::run(|| {
+            let refs = Vec::<arrow_schema::FieldRef>::try_from(schema.clone()).map_err(|e| str_err(e.to_string()))?;
+            to_marrow(&refs.iter().map(|f| f.as_ref().clone()).collect::<Vec<_>>())
+        }),
+    );
+    case.insert(
+        "arrow2_owned".into(),
+        outcome::run(|| {
+            let a2 = Vec::<Arrow2Field>::try_from(schema.clone()).map_err(|e| str_err(e.to_string()))?;
+            let s = SerdeArrowSchema::try_from(&a2[..]).map_err(|e| str_err(e.to_string()))?;
+            observe(&s).map_err(str_err)
+        }),
+    );
+    case.insert(
+        "value_traits".into(),
+        outcome::run(|| {
+            let copy = schema.clone();
+            let eq = copy == schema && !(copy != schema);
+            let dflt = SerdeArrowSchema::default();
+            let ne_default = dflt != schema;
+            Ok::<_, StrErr>(json!({"clone_eq": eq, "ne_default": ne_default, "default": observe(&dflt).map_err(str_err)?}))
+        }),
+    );
     let mut jv: Option<Value> = None;
     case.insert(
         "json".into(),
@@ -749,6 +812,10 @@ fn exec_fields(input: &Value, case: &mut Map<String, Value>) {
             }
             Ok::<_, StrErr>(fields_json(&out))
         }),
+    );
+    case.insert(
+        "back_arrow_plain".into(),
+        outcome::run(|| to_marrow(&Vec::<ArrowField>::from_value(&jv).map_err(|e| str_err(e.to_string()))?)),
     );
     case.insert(
         "back_arrow2".into(),
@@ -802,12 +869,41 @@ fn exec_spell(input: &Value, case: &mut Map<String, Value>) {
     }
 }
 
+fn exec_strategy(input: &Value, case: &mut Map<String, Value>) {
+    use serde_arrow::schema::{Strategy, STRATEGY_KEY};
+    use std::collections::{BTreeMap, HashMap};
+    let s = input["s"].as_str().unwrap_or("");
+    let shown = |r: Result<Strategy, String>| r.map(|st| json!(st.to_string())).map_err(str_err);
+    case.insert("parse".into(), outcome::run(|| shown(s.parse::<Strategy>().map_err(|e| e.to_string()))));
+    case.insert("try_from".into(), outcome::run(|| shown(Strategy::try_from(s.to_string()).map_err(|e| e.to_string()))));
+    case.insert("de".into(), outcome::run(|| shown(serde_json::from_value::<Strategy>(json!(s)).map_err(|e| e.to_string()))));
+    case.insert("key".into(), json!(STRATEGY_KEY));
+    if let Ok(st) = s.parse::<Strategy>() {
+        case.insert(
+            "forms".into(),
+            outcome::run(|| {
+                let hm: Vec<(String, String)> = HashMap::<String, String>::from(st.clone()).into_iter().collect();
+                let bm: Vec<(String, String)> = BTreeMap::<String, String>::from(st.clone()).into_iter().collect();
+                Ok::<_, StrErr>(json!({
+                    "display": st.to_string(),
+                    "into_string": String::from(st.clone()),
+                    "ser": serde_json::to_value(&st).map_err(|e| str_err(e.to_string()))?,
+                    "hash_map": hm,
+                    "btree_map": bm,
+                    "clone_eq": st.clone() == st,
+                }))
+            }),
+        );
+    }
+}
+
 pub fn exec(input: &Value) -> Value {
     let mut case = input.as_object().cloned().unwrap_or_default();
     match input["kind"].as_str().unwrap_or("") {
         "fields" => exec_fields(input, &mut case),
         "json" => exec_json(input, &mut case),
         "spell" => exec_spell(input, &mut case),
+        "strategy" => exec_strategy(input, &mut case),
         _ => {}
     }
     Value::Object(case)
